@@ -1,6 +1,6 @@
 SPECIFICATION Spec
 CONSTANTS
-  Vals <- Asym3
+  Vals <- Sym2
   MaxLen = 6
   WithFlush = FALSE
 INVARIANT FindTurnsAgree
